@@ -238,7 +238,9 @@ func twoSiteFamily() []grammarAlts {
 		func() *peg.Expr { return peg.Cls(false, false, "a-b") }, func() *peg.Expr { return peg.Cls(false, false, "a", "b") }, func() *peg.Expr { return peg.Cls(false, false, "a") },
 		func() *peg.Expr { return lit("a") }, func() *peg.Expr { return peg.Cls(false, true, "a-b") }, func() *peg.Expr { return lit("ab") }, func() *peg.Expr { return peg.Cls(true, false, "c") },
 	}
-	nbrs := []func() *peg.Expr{func() *peg.Expr { return lit("b") }, func() *peg.Expr { return lit("c") }, func() *peg.Expr { return peg.Cls(false, false, "c") }, func() *peg.Expr { return peg.LitI("c") }, func() *peg.Expr { return lit("bc") }}
+	nbrs := []func() *peg.Expr{func() *peg.Expr { return lit("b") }, func() *peg.Expr { return lit("c") }, func() *peg.Expr { return peg.Cls(false, false, "c") }, func() *peg.Expr { return peg.LitI("c") }, func() *peg.Expr { return lit("bc") },
+		// neighbours that bring RANGES of their own (with and without i): the merged class of each site has its own range table
+		func() *peg.Expr { return peg.Cls(false, true, "c-c") }, func() *peg.Expr { return peg.Cls(false, true, "b-b") }, func() *peg.Expr { return peg.Cls(false, false, "c-c") }}
 	for _, lf := range leafs {
 		for xi, x := range nbrs {
 			for yi, y := range nbrs {
